@@ -345,7 +345,7 @@ def native_lib(ctx, variant):
         inc = ["-I" + os.path.join(REPO, "include"), "-I" + RT]
         if variant == "mapmodel":
             inc = ["-I" + os.path.join(RT, "stubinc")] + inc
-        flags = ["-std=c++17", "-O0", "-g", "-fsanitize=address,undefined", "-fno-omit-frame-pointer", "-D" + GUARD, "-DVP_NATIVE", "-w"]
+        flags = ["-std=c++17", "-O0", "-g", "-fsanitize=address,undefined", "-fno-sanitize=vptr,alignment,nonnull-attribute", "-fno-omit-frame-pointer", "-D" + GUARD, "-DVP_NATIVE", "-w"]
 
         def comp(src):
             out = os.path.join(d, os.path.basename(src).replace(".cpp", ".o"))
